@@ -3,6 +3,7 @@
 import json, sys
 pid = sys.argv[1]
 tag = sys.argv[2] if len(sys.argv) > 2 else 'a'
+avoid = sys.argv[3] if len(sys.argv) > 3 else ''
 for l in open('/verif/properties.jsonl'):
     p = json.loads(l)
     if p['id'] == pid:
@@ -18,7 +19,7 @@ STATEMENT: {p['statement']}
 QUANTIFIED OVER: {p['quantifier']['text']}
 (The code most relevant to it: {', '.join(p['anchors']['files'][:12])})
 
-Your job: make ONE realistic change to the library source under {wt}/fpy2 that BREAKS this property, while the package still imports and the repository's existing test suite still passes. Run the suite with `cd {wt} && PYTHONPATH={wt} /venv/bin/python -m pytest -q -p no:cacheprovider -n 4 tests` (3442-ish tests, a few minutes; the machine is busy, so a few Hypothesis-based tests may fail with a `too_slow`/deadline health check — rerun exactly those alone to confirm they are load flakes unrelated to your change; any real failure means you must pick a different change). The change should be the kind of defect a developer could plausibly introduce (an off-by-one, a wrong comparison, a missing case, a swapped operand, a stale cache, a dropped flag, a wrong branch condition …) in the mechanism that is meant to make the property hold, and it should need something SPECIFIC to manifest — a particular input class, configuration, multi-step sequence, interleaving, or two cooperating sites that each look fine alone — not something ordinary use would expose at once. Prefer a subtle change over a blatant one, and do not pick a trivially equivalent change: you must demonstrate that it really breaks the property.
+Your job: make ONE realistic change to the library source under {wt}/fpy2 that BREAKS this property, while the package still imports and the repository's existing test suite still passes. Run the suite with `cd {wt} && PYTHONPATH={wt} /venv/bin/python -m pytest -q -p no:cacheprovider -n 4 tests` (3442-ish tests, a few minutes; the machine is busy, so a few Hypothesis-based tests may fail with a `too_slow`/deadline health check — rerun exactly those alone to confirm they are load flakes unrelated to your change; any real failure means you must pick a different change). The change should be the kind of defect a developer could plausibly introduce (an off-by-one, a wrong comparison, a missing case, a swapped operand, a stale cache, a dropped flag, a wrong branch condition …) in the mechanism that is meant to make the property hold, and it should need something SPECIFIC to manifest — a particular input class, configuration, multi-step sequence, interleaving, or two cooperating sites that each look fine alone — not something ordinary use would expose at once. {('An earlier exercise already used this change, so pick a DIFFERENT mechanism and a different file if you can: ' + avoid + '. ') if avoid else ''}Prefer a subtle change over a blatant one, and do not pick a trivially equivalent change: you must demonstrate that it really breaks the property.
 
 Deliver, in {out}/ (create it):
 1. patch.diff — `git -C {wt} diff` of your change (source only).
